@@ -53,6 +53,15 @@ fn before_commit(ctx: &Ctx, s: &WriteSpec) {
             let _ = std::fs::remove_dir_all(ctx.cache.join("content-v2"));
         }
     }
+    for i in 0..s.churn {
+        // other writers come and go while this one stays open
+        if let Ok(mut w) = cacache::WriteOpts::new().open_hash_sync(&ctx.cache) {
+            if i % 4096 == 0 {
+                let _ = w.write_all(&[(i / 4096) as u8]);
+            }
+            drop(w);
+        }
+    }
     if s.aged_hours != 0 {
         let d = std::time::Duration::from_secs(s.aged_hours.unsigned_abs() as u64 * 3600);
         let to = if s.aged_hours > 0 { std::time::SystemTime::now() - d } else { std::time::SystemTime::now() + d };
@@ -1193,7 +1202,7 @@ fn do_sync(ctx: &Ctx, op: &Op) -> Out {
         Op::RemoveHashMulti { addr, also } => unit(cacache::remove_hash_sync(cache, &two_hash(ctx, *addr, *also))),
         Op::Abandon { spec, at } => do_abandon_sync(ctx, spec, *at),
         Op::TwoWriters { a, b, plan } => do_two_sync(ctx, a, b, *plan),
-        Op::DamageContent { .. } | Op::DamageBucket { .. } | Op::ForeignRecord { .. } | Op::Chdir { .. } | Op::PlantRecord { .. } | Op::TmpElsewhere | Op::RemoveTarget { .. } | Op::SwitchCache => unreachable!(),
+        Op::DamageContent { .. } | Op::DamageBucket { .. } | Op::ForeignRecord { .. } | Op::Chdir { .. } | Op::PlantRecord { .. } | Op::TmpElsewhere | Op::RemoveTarget { .. } | Op::SwitchCache | Op::AgeCache { .. } => unreachable!(),
     }
 }
 
@@ -1301,7 +1310,7 @@ async fn do_async(ctx: &Ctx<'_>, op: &Op) -> Out {
         Op::RemoveHashMulti { addr, also } => unit(cacache::remove_hash(cache, &two_hash(ctx, *addr, *also)).await),
         Op::Abandon { spec, at } => do_abandon_async(ctx, spec, *at).await,
         Op::TwoWriters { a, b, plan } => do_two_async(ctx, a, b, *plan).await,
-        Op::DamageContent { .. } | Op::DamageBucket { .. } | Op::ForeignRecord { .. } | Op::Chdir { .. } | Op::PlantRecord { .. } | Op::TmpElsewhere | Op::RemoveTarget { .. } | Op::SwitchCache => unreachable!(),
+        Op::DamageContent { .. } | Op::DamageBucket { .. } | Op::ForeignRecord { .. } | Op::Chdir { .. } | Op::PlantRecord { .. } | Op::TmpElsewhere | Op::RemoveTarget { .. } | Op::SwitchCache | Op::AgeCache { .. } => unreachable!(),
     }
 }
 
@@ -1481,6 +1490,26 @@ pub fn do_harness_side(ctx: &Ctx, op: &Op) -> Out {
         }
         Op::RemoveTarget { target } => {
             let _ = std::fs::remove_file(ctx.target_path(*target));
+            Out::Done
+        }
+        Op::AgeCache { days } => {
+            fn age(dir: &Path, to: std::time::SystemTime) {
+                if let Ok(rd) = std::fs::read_dir(dir) {
+                    for e in rd.flatten() {
+                        let p = e.path();
+                        match std::fs::symlink_metadata(&p) {
+                            Ok(m) if m.is_dir() => age(&p, to),
+                            Ok(m) if m.is_file() => {
+                                if let Ok(f) = std::fs::OpenOptions::new().write(true).open(&p) {
+                                    let _ = f.set_modified(to);
+                                }
+                            }
+                            _ => {}
+                        }
+                    }
+                }
+            }
+            age(&ctx.cache, std::time::SystemTime::now() - std::time::Duration::from_secs(*days as u64 * 86400));
             Out::Done
         }
         Op::SwitchCache => {
